@@ -248,6 +248,37 @@ pub const STRETCH_READER: &[Tmpl] = &[
     Tmpl { name: "bom then blanks then decl", segs: &[L(b"\xEF\xBB\xBF"), S(0, b" "), L(b"<?xml version='1.0'?>"), S(1, b"x")] },
 ];
 
+/// The templates whose cost or meaning depends on depth / count / one long name: used with the large sizes.
+pub const STRETCH_DEEP: &[Tmpl] = &[
+    Tmpl { name: "nesting: opens x closes", segs: &[S(0, b"<a>"), S(1, b"</a>")] },
+    Tmpl { name: "nesting: opens, closes, extra closes", segs: &[S(0, b"<a>"), L(b"<b xmlns='u' xmlns:p='v'><p:c/></b>"), S(0, b"</a>"), S(1, b"</a>")] },
+    Tmpl { name: "siblings: empty x text+empty", segs: &[L(b"<r>"), S(0, b"<a/>"), S(1, b"x<b/>"), L(b"</r>")] },
+    Tmpl { name: "name x text", segs: &[L(b"<"), S(0, b"a"), L(b">"), S(1, b"x"), L(b"</"), S(0, b"a"), L(b">")] },
+    Tmpl { name: "many attributes x blanks before />", segs: &[L(b"<a"), S(0, b" k='v'"), S(1, b" "), L(b"/>")] },
+    Tmpl { name: "many declarations", segs: &[L(b"<a"), S(0, b" xmlns:p='u'"), S(1, b" xmlns='v'"), L(b"><p:b/></a>")] },
+    Tmpl { name: "text x comment", segs: &[L(b"<a>"), S(0, b"t"), L(b"<!--"), S(1, b"c"), L(b"--></a>")] },
+];
+
+/// 2^j-2 ..= 2^j+2 for lo <= j <= hi
+pub fn pow_sizes(lo: u32, hi: u32) -> Vec<u32> {
+    let mut v = Vec::new();
+    for j in lo..=hi {
+        let p = 1u32 << j;
+        v.extend_from_slice(&[p - 2, p - 1, p, p + 1, p + 2]);
+    }
+    v
+}
+
+pub fn stretch_lists(name: &str, tmpls: &'static [Tmpl], full: Vec<u32>, red: Vec<u32>) -> Space {
+    let desc = json!({
+        "kind": "size thresholds: templates with two repeat slots; one count over `sizes_full`, the other over `sizes_reduced`, both ways",
+        "templates": tmpls.iter().map(|t| t.name).collect::<Vec<_>>(),
+        "sizes_full": full, "sizes_reduced": red,
+    });
+    let st = Stretch { tmpls, full, red, desc };
+    Space { name: name.to_string(), desc: st.desc.clone(), total: st.total(), gen: Box::new(move |i, out| st.get(i, out, None)) }
+}
+
 pub fn size_list(dense: u32, max_pow: u32) -> Vec<u32> {
     let mut v: Vec<u32> = (0..=dense).collect();
     for j in 3..=max_pow {
